@@ -262,13 +262,27 @@ func confirmDeath(id string, seed int64, bin, scratch string, r workerResult) st
 	if rr.stats != nil || rr.timedOut {
 		return "" // did not die again: not reproducible, reported as trouble by the caller
 	}
-	if harnessOwnPanic(rr.output) {
+	if rr.stalled != r.stalled {
+		return ""
+	}
+	if rr.stalled {
+		// ended by the stall monitor both times: a violation only if the dump shows a goroutine
+		// of a bubble still running inside fingerproxy (a loop that does not end)
+		spin := spinningInSUT(rr.output)
+		if spin == "" {
+			fmt.Fprintf(os.Stderr, "verif: worker stalled, but no goroutine of the system under test was running:\n%s\n", tail(rr.output, 2500))
+			return ""
+		}
+		rp.Death = "STALL: one case ran for more than " + stallLimit().String() + " without ending; this goroutine of the system under test was still running when the worker was sent SIGQUIT (a loop that does not end):\n" + spin + "\n\n" + tail(rr.output, 3000)
+	} else if harnessOwnPanic(rr.output) {
 		// the panicking goroutine is a simulated client of the harness and has no frame of the
 		// code under test on its stack: a defect of the machinery, not a finding
 		fmt.Fprintf(os.Stderr, "verif: the worker died in the harness's own client code:\n%s\n", tail(rr.output, 2500))
 		return ""
 	}
-	rp.Death = tail(rr.output, 6000)
+	if rp.Death == "" {
+		rp.Death = tail(rr.output, 6000)
+	}
 	rp.Note = "the worker process was killed while running this case (a panic or fatal error in the system under test takes the whole process down); replay: verif replay <this file>"
 	out := filepath.Join(verifDir, "replays", id)
 	os.MkdirAll(out, 0o755)
@@ -276,6 +290,21 @@ func confirmDeath(id string, seed int64, bin, scratch string, r workerResult) st
 	jb, _ := json.MarshalIndent(rp, "", " ")
 	os.WriteFile(path, jb, 0o644)
 	return path
+}
+
+// spinningInSUT returns the stack of a goroutine that a SIGQUIT dump shows as running inside a
+// synctest bubble with a frame of fingerproxy ("" if there is none).
+func spinningInSUT(dump string) string {
+	for _, blk := range strings.Split(dump, "\n\n") {
+		head, _, _ := strings.Cut(blk, "\n")
+		if !strings.HasPrefix(head, "goroutine ") || !strings.Contains(head, "[running") {
+			continue
+		}
+		if strings.Contains(blk, "github.com/wi1dcard/fingerproxy") && strings.Contains(dump, "synctest") {
+			return blk
+		}
+	}
+	return ""
 }
 
 // harnessOwnPanic: the goroutine that panicked (the first one printed) runs a scripted client
